@@ -5,6 +5,10 @@
 (*   [k |-> "file", n, size]   size is a size CLASS (see harness)          *)
 (*   [k |-> "link", n, to]     to is a target CLASS                        *)
 (*   [k |-> "dir",  n, ch]     ch a sequence of file/link entries          *)
+(*   [k |-> "manydir", n, to]  a directory with so many entries that the   *)
+(*                             tool builds a HAMT-sharded directory; the   *)
+(*                             specification treats it as one opaque      *)
+(*                             entry (the harness knows its contents)      *)
 (* cfg = [version, nowrap, stdin, spell]; spell: how the source directory  *)
 (* is named on the command line ("abs" | "dot" | "dirdot")                 *)
 (* Packed(t, wrap) is the root directory of the DAG the tool builds: with  *)
@@ -17,6 +21,7 @@
 EXTENDS Integers, Sequences, FiniteSets, TLC, Json
 
 CONSTANTS Leaves,       \* leaf entries (files, links)
+          TopOnly,      \* entries that only occur at the top level (the sharded directory)
           DirNames, MaxTop, MaxChild, Configs
 
 VARIABLES t, cfg
@@ -27,7 +32,7 @@ DistinctNames(s) == \A i, j \in 1..Len(s) : s[i].n = s[j].n => i = j
 LeafSeqs(n) == { s \in UNION { [1..k -> Leaves] : k \in 0..n } : DistinctNames(s) }
 
 Init == /\ cfg \in Configs
-        /\ \E k \in 0..MaxTop : \E top \in [1..k -> Leaves \cup { Dir(nm, ch) : nm \in DirNames, ch \in LeafSeqs(MaxChild) }] :
+        /\ \E k \in 0..MaxTop : \E top \in [1..k -> Leaves \cup TopOnly \cup { Dir(nm, ch) : nm \in DirNames, ch \in LeafSeqs(MaxChild) }] :
               DistinctNames(top) /\ t = top
 Next == UNCHANGED vars
 Spec == Init /\ [][Next]_vars
